@@ -154,7 +154,10 @@ def _canonical_names(body, j):
     ent = pn["params"].get(j["path"])
     argc = j.get("argc", 0)
     locs = j["locals"]
-    if ent and len(ent["names"]) == argc and [locs[i]["ty"] for i in range(1, argc + 1)] == ent["tys"]:
+    def _nt(t_):
+        # closure / async-block types carry their source position: not part of the signature
+        return re.sub(r"@[^}>]*?:\d+:\d+: \d+:\d+", "@", t_)
+    if ent and len(ent["names"]) == argc and [_nt(locs[i]["ty"]) for i in range(1, argc + 1)] == [_nt(x) for x in ent["tys"]]:
         for i, nm in enumerate(ent["names"]):
             if nm is not None and locs[i + 1].get("name") != nm:
                 locs[i + 1]["name_actual"] = locs[i + 1].get("name")
